@@ -36,6 +36,8 @@ type Scenario struct {
 	CloseConcurrently bool
 	// AfterClients runs on thread 0 after the clients finished, exploration off, DB still open.
 	AfterClients func(db *NoKV.DB)
+	// Closed is set (by thread 0) once Close has returned. A Scenario value is per execution.
+	Closed bool
 }
 
 var dirSeq atomic.Int64
@@ -76,6 +78,7 @@ func Exec(sc *Scenario, base string, monitor func() (string, string), final func
 		}
 		closeErr = h.Close()
 		closed = true
+		sc.Closed = true
 		if sc.CloseConcurrently {
 			wg.Wait()
 			vsched.SetExplore(false)
